@@ -381,20 +381,28 @@ def extractObjectShape (named : Named) : Nat → IR → Option (List (String × 
         | _, _ => none) (some [])
     | _ => none
 
+/-- a segment printed as template source again -/
+def escTplSegment (s : String) : String :=
+  (((s.replace "\\" "\\\\").replace "`" "\\`").replace "$" "\\$").replace "\r" "\\r"
+
+/-- a single string printed as a string literal -/
+def escQuoted (s : String) : String :=
+  (((s.replace "\\" "\\\\").replace "\"" "\\\"").replace "\n" "\\n").replace "\r" "\\r"
+
 def describeTplItem : Nat → TplItem → String
   | 0, _ => ""
   | _+1, .string => "${string}"
   | _+1, .number => "${number}"
   | _+1, .boolean => "${boolean}"
-  | _+1, .lit v => v
+  | _+1, .lit v => escTplSegment v
   | n+1, .oneOf vs => "(" ++ " | ".intercalate (vs.map fun v => match v with
-      | .lit s => "\"" ++ s ++ "\""
+      | .lit s => "\"" ++ escQuoted s ++ "\""
       | other => "`" ++ describeTplItem n other ++ "`") ++ ")"
 
 /-- `TplLitType::describe` -/
 def describeTpl (items : Tpl) : String :=
   match items with
-  | [.lit s] => "\"" ++ s ++ "\""
+  | [.lit s] => "\"" ++ escQuoted s ++ "\""
   | _ => "`" ++ String.join (items.map (describeTplItem 20)) ++ "`"
 
 /-- `print_runtype` (printer.rs:840-1069) -/
